@@ -273,6 +273,27 @@ def verify_tables(db, cc):
     env["src"] = {st_.targets[0].id: ast.unparse(st_.value) for st_ in node.body
                   if isinstance(st_, ast.Assign) and len(st_.targets) == 1 and isinstance(st_.targets[0], ast.Name)}
     env["bases"] = [ast.unparse(b) for b in node.bases]
+
+    def applies_default(meth, key, const):
+        """method `meth` has the top-level statement  if "<key>" not in cfg: cfg["<key>"] = self.<const>  and no other
+        top-level statement of it stores cfg["<key>"] (nested stores under other conditions, e.g. string -> float conversions of a
+        PRESENT value, are allowed)"""
+        for m in node.body:
+            if isinstance(m, ast.FunctionDef) and m.name == meth:
+                hits, others = 0, 0
+                for st_ in m.body:
+                    if (isinstance(st_, ast.If) and isinstance(st_.test, ast.Compare) and len(st_.test.ops) == 1
+                            and isinstance(st_.test.ops[0], ast.NotIn) and isinstance(st_.test.left, ast.Constant)
+                            and st_.test.left.value == key and ast.unparse(st_.test.comparators[0]) == "cfg"
+                            and st_.body and isinstance(st_.body[0], ast.Assign)
+                            and ast.unparse(st_.body[0].targets[0]) == "cfg[%r]" % key
+                            and ast.unparse(st_.body[0].value) == "self." + const):
+                        hits += 1
+                    elif isinstance(st_, ast.Assign) and any(ast.unparse(t) == "cfg[%r]" % key for t in st_.targets):
+                        others += 1
+                return hits == 1 and others == 0
+        return False
+    env["applies_default"] = applies_default
     obs = []
     for cl in cc.ensures:
         try:
